@@ -147,10 +147,16 @@ def numCmp (ar : Arith) : NumTy → RelOp → Int → Int → Bool
   | .flt t, .lt, a, b => ar.flt t a.toNat b.toNat
   | .flt t, .le, a, b => ar.flt t a.toNat b.toNat || ar.feq t a.toNat b.toNat
 
+/-- a number as it reaches the typed API: the wire carries Int8/Int16/Uint8/Uint16 arguments in
+    32-bit fields, the handlers cast them to the width of the request -/
+def numWrap : NumTy → Int → Int
+  | .int t, x => t.wrap x
+  | .flt _, x => x
+
 def condHolds (ar : Arith) (ty : NumTy) (cond : Option (RelOp × Int)) (cur : Int) : Bool :=
   match cond with
   | none => true
-  | some (op, ref) => numCmp ar ty op cur ref
+  | some (op, ref) => numCmp ar ty op cur (numWrap ty ref)
 
 /-- reply of the slice requests: collected per-key errors surface as InvalidArgument -/
 def errOr (e : Bool) : Resp := if e then .err "InvalidArgument" else .ok
@@ -363,6 +369,9 @@ structure Cfg where
   countMissingOk : Bool
   /-- a failed swamp of a `Set` request gets exactly one response entry -/
   setErrSingle : Bool
+  /-- the float Increment handlers evaluate `cur > ref` (…) as written; false: as "fail when the
+      complement holds" (`if cur <= ref { fail }`), which a NaN operand never fails -/
+  fltCondDirect : Bool
   /-- `SaveFunction` releases the record guard itself when the write interval is 0 -/
   saveReleasesImmediate : Bool
   encoding : Encoding
@@ -388,6 +397,7 @@ inductive Tag where
   | setErrDup          -- a failed swamp of `Set` produced two response entries
   | zeroLikeDropped    -- close/reload changed a zero-like value into void
   | resurrected        -- a key that was deleted comes back from the file at reload
+  | nanCond            -- a float ordering condition was evaluated through its complement
   deriving DecidableEq, Repr, Inhabited
 
 /-- the code's treasure object -/
@@ -681,6 +691,19 @@ def incStep (cfg : Cfg) (ar : Arith) (now : Int) (s : State) (ty : NumTy) (k : K
     let st := settleAfterTouch cfg s o.i
     ⟨st.1, o.r, o.tags ++ st.2⟩
 
+/-- the comparison the float Increment handlers really make when they are written as
+    `if cur <= ref { fail }`: "greater" is "not (less or equal)".  Equal to `ar` on ordered
+    operands; with a NaN operand every ordering condition passes. -/
+def negCmp (ar : Arith) : Arith :=
+  { ar with flt := fun t x y => !(ar.flt t y x || ar.feq t x y) }
+
+def cmpArith (cfg : Cfg) (ar : Arith) : Arith := if cfg.fltCondDirect then ar else negCmp ar
+
+/-- a float condition with an ordering operator (the only place `Arith.flt` is consulted) -/
+def isFltOrd : NumTy → Option (RelOp × Int) → Bool
+  | .flt _, some (.gt, _) | .flt _, some (.ge, _) | .flt _, some (.lt, _) | .flt _, some (.le, _) => true
+  | _, _ => false
+
 /-- content after `Uint32SlicePush` (with the type check: a canonical slice) -/
 def pushSet (cfg : Cfg) (c : Content) (vs : List Nat) : SetRes :=
   if cfg.pushChecksType then
@@ -809,7 +832,9 @@ def stepCore (cfg : Cfg) (ar : Arith) (now : Int) (s : State) (req : Req) : Out 
       else ⟨s, .err "FailedPrecondition", [Tag.arekPrecondition]⟩
     else ⟨withLive s (summon s), .flags (flagMap (fun k => AL.has k (summon s).recs) keys), []⟩
   | .isSwamp => ⟨s, .flag (exists_ s), []⟩
-  | .inc ty k by_ cond ine ie => incStep cfg ar now s ty k by_ cond ine ie
+  | .inc ty k by_ cond ine ie =>
+    let o := incStep cfg (cmpArith cfg ar) now s ty k by_ cond ine ie
+    ⟨o.s, o.r, o.tags ++ (if !cfg.fltCondDirect && isFltOrd ty cond then [Tag.nanCond] else [])⟩
   | .push pairs =>
     let r := pushLoop cfg (summon s) pairs
     let st := settleAfterTouch cfg s r.1
